@@ -15,7 +15,29 @@ CLAIMED = {
  "C14": dict(cat="exploration", tech="runtime monitor over two-cycle histories with root publications in between; oracle by construction (rotation kind x version relation)",
     text="Cycle 1 stores timestamp/snapshot at V in {3,2^31,2^63}; newer roots rotate timestamp/snapshot/both/neither keys (disjoint, add, remove, replace) over 1..3 hops; cycle 2 restarts at low versions. Rotated => must load; unrotated => must be refused; unrotated targets keys keep protecting targets.",
     note="Rotate-and-rotate-back and threshold-only changes are outside C14's quantifier.", ref="§5 C14"),
+ "C04": dict(cat="exploration", tech="runtime monitor under a virtual clock (hook in Datastore::system_time); oracle by construction from forged expiry dates and the clock trajectory, incl. error class and reported role",
+    text="Every subset of {root,timestamp,snapshot,targets} expired by 2s..400d at load time, load followed by read_target/save_target before/after the earliest expiry, backward clock jumps before the last operation of several trajectories, default/Safe/Unsafe enforcement, expired intermediate roots; the real client runs with its single Utc::now() sample replaced by a thread-local virtual clock.",
+    note="The boundary instant is never used; the real system clock is out of reach (hook).", ref="§5 C04"),
+ "C05": dict(cat="exploration", tech="runtime monitor on load() outcome and fetch log for cross-state file combinations; oracle by construction from the served bytes (version/digest/length relations)",
+    text="Timestamp of state a, snapshot of b, targets of c, delegated role of d for all 81 combinations x 4 pin configurations x both consistent-snapshot settings; same-state byte variants (re-formatted, shuffled, extra unknown signature) against pins of the original bytes; delegated role missing from the snapshot; fetch-log rule for version-prefixed names.",
+    note="For delegated roles only version equality and listing are required by the statement.", ref="§5 C05"),
+ "C06": dict(cat="fault_enumeration", tech="runtime monitor on every item yielded by read_target over a fault-injecting in-memory transport; oracle = SHA-256/length of what the caller received vs the signed entry, bytes pulled from the transport",
+    text="Contents 0..64 KiB at role depth 0/1/2; for contents <= 256 B every bit flip, truncation point and error chunk index is enumerated, plus extensions, substitutions, endless streams, unlisted names; sampled positions and chunkings for large contents.",
+    note="One loaded repository per worker and setting; faults applied per read.", ref="§5 C06"),
+ "C07": dict(cat="exploration", tech="runtime monitor on load()/find_target/read_target for generated delegation trees; oracle = independent pre-order lookup with pruning, three-valued on ambiguous globs",
+    text="Random trees (depth<=3, fan-out<=3) with literal/wildcard/hash-prefix path sets and up to 6 placements incl. names needing resolution and the same name listed by several roles with different digests; unauthorised listings must make load fail, otherwise the enforced digest must belong to the first authorised entry in pre-order.",
+    note="Glob semantics evaluated under both readings; differing verdicts are inconclusive (counted).", ref="§5 C07"),
+ "C08": dict(cat="fault_enumeration", tech="file-system monitor (tree snapshots of sandbox, parent and /) around every save_target call plus an observer of the destination path between every two transport chunks",
+    text="All 9330 names over {vq7 . / \\ space %} up to length 5, random names up to 40 symbols, both prefix modes, with/without pre-existing destination; transfers in 1..8 chunks with a failure at every chunk position (transport error, bit flip, truncation, oversize). Rules: no change outside out/, destination never shows partial/unverified content, failed call leaves no file, success leaves exactly the verified file.",
+    note="Leftover empty directories ignored; names rejected by TargetName::new counted separately.", ref="§5 C08"),
+ "C09": dict(cat="fault_enumeration", tech="runtime monitor counting requests and bytes pulled per URL on an in-memory transport; bounds computed from limits / pinning document / published delegation graph; termination decided on the request counter",
+    text="Configured limits {0,size-1,size,size+1,default,huge} and parent-pinned lengths for every role incl. a delegated role larger than targets.json; endless/oversized answers in 1/64/4096-byte chunks; chains of max_root_updates-1..+50 newer roots; delegation graphs tree/diamond/deep/self/mutual/3-cycle.",
+    note="Pulled bytes may exceed the bound by one transport chunk.", ref="§5 C09"),
+ "C11": dict(cat="exploration", tech="differential runtime monitor: CanonicalFormatter output vs an independent reference canonicaliser + strict canonical-bytes parser (injectivity), exhaustive small scope + seeded random, library and olpc-cjson binary",
+    text="Every key set of size <=3 over an 8-symbol alphabet (prefix pairs, escaped characters, characters below the quote, pre-composed and decomposed é) under every insertion order, random values to depth 4 over all ASCII incl. control characters with floats injected, each also with shuffled member order; the same through the olpc-cjson binary.",
+    note="NFC known by construction only for the harness' atom alphabet.", ref="§5 C11"),
 }
+
 
 
 PENDING_REASON = "monitor not built yet in this session (design in DESIGN.md §5); will be claimed once its check exists and is silent on the unchanged tree"
